@@ -247,6 +247,11 @@ func (p *MetadataPersister) GetHeader(ctx context.Context, name string) (*config
 func (p *MetadataPersister) GetHeaderByLinkname(ctx context.Context, linkname string) (*config.Header, error) {
 	linkname = p.getSanitizedPath(ctx, linkname)
 
+	// Entries that are not links have an empty link path, which is also how a relative root is spelled
+	if linkname == "" {
+		return nil, sql.ErrNoRows
+	}
+
 	hdr, err := models.Headers(
 		qm.Where(models.HeaderColumns.Linkname+" = ?", linkname),
 		qm.Where(models.HeaderColumns.Deleted+" != 1"),
